@@ -1,5 +1,7 @@
 use std::{collections::HashMap, rc::Rc};
 
+use rust_decimal::Decimal;
+
 use crate::{
     portfolio::{Affiliate, PortfolioSecurityStatus},
     util::decimal::GreaterEqualZeroDecimal,
@@ -47,6 +49,28 @@ impl AffiliatePortfolioSecurityStatuses {
         s
     }
 
+    /// The share balance across all affiliates after the share balance of one
+    /// affiliate went from `share_balance` to `new_share_balance`: the shares of
+    /// the other affiliates plus the new balance (and unchanged if the
+    /// affiliate's balance is).
+    ///
+    /// Everything that computes or verifies an all-affiliate share balance must
+    /// use this, so that it is always the same expression, evaluated in the same
+    /// order. Balances can carry 28 significant digits (after a 4-for-3 split,
+    /// say), and then `all + (new - old)`, `(new + all) - old` and
+    /// `all + bought` can differ in the last digit.
+    pub fn all_affiliates_share_balance_after(
+        all_affiliate_share_balance: GreaterEqualZeroDecimal,
+        share_balance: GreaterEqualZeroDecimal,
+        new_share_balance: GreaterEqualZeroDecimal,
+    ) -> Decimal {
+        if new_share_balance == share_balance {
+            *all_affiliate_share_balance
+        } else {
+            (*all_affiliate_share_balance - *share_balance) + *new_share_balance
+        }
+    }
+
     pub fn get_latest_post_status_for_affiliate(
         &self,
         af: &Affiliate,
@@ -85,9 +109,11 @@ impl AffiliatePortfolioSecurityStatuses {
             Some(status) => status.share_balance,
             None => GreaterEqualZeroDecimal::zero(),
         };
-        let expected_all_share_bal = *v.share_balance
-            + *self.latest_all_affiliates_share_balance
-            - *last_share_balance;
+        let expected_all_share_bal = Self::all_affiliates_share_balance_after(
+            self.latest_all_affiliates_share_balance,
+            last_share_balance,
+            v.share_balance,
+        );
 
         assert_eq!(
             af.registered(),
@@ -99,9 +125,9 @@ impl AffiliatePortfolioSecurityStatuses {
         );
         assert_eq!(*v.all_affiliate_share_balance, expected_all_share_bal,
             "In security {}, af {}, v.all_affiliate_share_balance ({}) != expected_all_share_bal ({}) \
-            (*v.share_balance ({}) + *self.latest_all_affiliates_share_balance ({}) - *last_share_balance ({})",
+            (*self.latest_all_affiliates_share_balance ({}) - *last_share_balance ({}) + *v.share_balance ({})",
             self.security, af.name(), v.all_affiliate_share_balance, expected_all_share_bal,
-            *v.share_balance, *self.latest_all_affiliates_share_balance, *last_share_balance);
+            *self.latest_all_affiliates_share_balance, *last_share_balance, *v.share_balance);
 
         self.last_post_status_for_affiliate.insert(af.clone(), v.clone());
         self.latest_all_affiliates_share_balance = v.all_affiliate_share_balance;
